@@ -14,7 +14,10 @@ import (
 
 func TestMain(m *testing.M) { pk.Main(m) }
 
-var contexts = []string{"loop", "while", "for-range", "for-list", "block", "if-then", "if-else", "match-arm", "match-default", "try", "catch", "fn", "lambda", "rec", "rec-try"}
+var contexts = []string{"loop", "while", "for-range", "for-list", "block", "if-then", "if-else", "match-arm", "match-default", "try", "catch", "fn", "lambda", "rec", "rec-try",
+	// the CONDITION of a while loop and the ITERATOR expression of a for loop are evaluated outside of that loop: an
+	// exit taken there belongs to the constructs around the loop
+	"while-cond", "for-iter"}
 var exits = []string{"break", "continue", "return", "return-null", "throw-caught", "throw-uncaught", "fatal-div", "fatal-index", "none",
 	// a `return` whose VALUE does not complete: the exception belongs to the handlers around the return statement
 	"return-throwing-call", "return-throwing-block"}
@@ -78,6 +81,14 @@ func (b *builder) wrap(ctx string, level int, inner []hs.Stmt) []hs.Stmt {
 		c := b.fresh("c")
 		stmts := append([]hs.Stmt{inc(c), say(sl("iter "+tag), id(c, hs.TInt))}, body...)
 		return []hs.Stmt{let(c, il(0)), hs.While{Cond: lt(c, 2), Body: blk(stmts...)}, say(sl("left "+tag), id(c, hs.TInt))}
+	case "while-cond":
+		c := b.fresh("c")
+		cond := &hs.Block{Stmts: append([]hs.Stmt{inc(c)}, body...), Tail: lt(c, 3), T: hs.TBool}
+		return []hs.Stmt{let(c, il(0)), hs.While{Cond: cond, Body: blk(say(sl("while-body "+tag), id(c, hs.TInt)))}, say(sl("left "+tag), id(c, hs.TInt))}
+	case "for-iter":
+		v := b.fresh("i")
+		iter := &hs.Block{Stmts: body, Tail: hs.RangeLit{Lo: il(0), Hi: il(2)}, T: hs.TRange}
+		return []hs.Stmt{hs.For{Var: v, Iter: iter, Body: blk(say(sl("for-body "+tag), id(v, hs.TInt)))}, say(sl("left " + tag))}
 	case "for-range":
 		v := b.fresh("i")
 		stmts := append([]hs.Stmt{say(sl("iter "+tag), id(v, hs.TInt))}, body...)
